@@ -68,6 +68,8 @@ type Exp struct {
 	MustStayOpen bool
 	// MayCodes: a CONNACK with one of these return codes may precede the close
 	MayCodes map[byte]bool
+	// MayClose: closed or open are both acceptable
+	MayClose bool
 }
 
 // Delivery expectation of one application message to one receiver.
